@@ -39,6 +39,9 @@ type c09Case struct {
 	Plain     bool          `json:"plain"`  // control
 	// LongName: one remote server name is longer than 255 bytes
 	LongName bool `json:"remote_server_name_over_255_bytes,omitempty"`
+	// TLS: the connection is described as a TLS connection (Info.TLSEnable); password
+	// encryption is negotiated all the same unless the login configuration says otherwise
+	TLS bool `json:"tls_enable,omitempty"`
 }
 
 type remote struct {
@@ -90,7 +93,7 @@ func script(c c09Case) loginpeer.Script {
 }
 
 func cfg(c c09Case, pw []byte) loginpeer.Config {
-	l := loginpeer.Config{User: c.User, Password: string(pw), Host: c.Host, App: c.App, Server: "srv", Plain: c.Plain}
+	l := loginpeer.Config{User: c.User, Password: string(pw), Host: c.Host, App: c.App, Server: "srv", Plain: c.Plain, TLS: c.TLS}
 	for _, r := range c.Remotes {
 		l.Remotes = append(l.Remotes, [2]string{r.Name, string(r.Password)})
 	}
@@ -254,7 +257,11 @@ func runCase(c c09Case) *vh.Failure {
 		}
 	}
 	capacity := c.Key.Capacity() - len(c.Nonce)
-	fits := len(c.Password) <= capacity
+	// (the 32-byte session key has to fit behind the nonce as well)
+	fits := len(c.Password) <= capacity && capacity >= 32
+	if capacity < 32 {
+		vh.Label("nonce-leaves-no-room-for-the-session-key")
+	}
 	for _, r := range c.Remotes {
 		if len(r.Password) > capacity {
 			fits = false
@@ -282,6 +289,9 @@ func runCase(c c09Case) *vh.Failure {
 			return vh.Failf("C09/unexpected-success", "%s: login succeeded although it cannot (reject script / password over key capacity)", where)
 		}
 		vh.Label("failing-login:" + map[bool]string{true: c.Reject, false: "over-capacity"}[c.Reject != ""])
+		if c.TLS {
+			vh.Label("tls-enabled-in-the-connection-description")
+		}
 		if c.Reject == "garbled-key" || c.Reject == "wrong-msgid" || !fits {
 			return nil // the client never sent the second message
 		}
@@ -405,8 +415,8 @@ func capKey(c *rc.Capability) string {
 }
 
 func genSecret(rt *rapid.T, label string, maxLen int, c *c09Case) []byte {
-	if maxLen < 0 {
-		maxLen = 0
+	if maxLen <= 0 {
+		return []byte{}
 	}
 	switch rapid.IntRange(0, 7).Draw(rt, label+"-class") {
 	case 0: // collides with another login field
@@ -456,6 +466,13 @@ func genCase(rt *rapid.T) c09Case {
 		// fail, which is C08's subject)
 		c.Nonce = rapid.SliceOfN(rapid.Byte(), 1, minI(64, c.Key.Capacity()-32)).Draw(rt, "nonce")
 	}
+	if rapid.IntRange(0, 14).Draw(rt, "nonce-too-long-for-session-key") == 0 {
+		// a nonce that leaves room for short secrets but not for the 32-byte session key: such a
+		// login cannot be completed as the property describes it and has to fail
+		n := c.Key.Capacity() - rapid.IntRange(0, 31).Draw(rt, "room")
+		c.Nonce = rapid.SliceOfN(rapid.Byte(), n, n).Draw(rt, "long-nonce")
+	}
+	c.TLS = rapid.IntRange(0, 3).Draw(rt, "tls") == 0
 	capacity := c.Key.Capacity() - len(c.Nonce)
 	over := rapid.IntRange(0, 19).Draw(rt, "overcapacity") == 0 && capacity >= 32
 	c.Password = genSecret(rt, "password", capacity, &c)
@@ -493,9 +510,12 @@ func genCase(rt *rapid.T) c09Case {
 	return c
 }
 
-// shortNames undoes the over-long remote server name of a generated case (for the tests that
-// need logins that succeed).
+// shortNames undoes the over-long remote server name and the over-long nonce of a generated
+// case (for the tests that need logins that succeed).
 func shortNames(c *c09Case) {
+	if c.Key.Capacity()-len(c.Nonce) < 32 {
+		c.Nonce = c.Nonce[:c.Key.Capacity()-32]
+	}
 	for i := range c.Remotes {
 		if len(c.Remotes[i].Name) > 255 {
 			c.Remotes[i].Name = c.Remotes[i].Name[:20]
